@@ -9,7 +9,7 @@ declaration order; (3) the text of a sub-block does not depend on the ancestor t
 import py4hw
 from hypothesis import strategies as st
 
-from .. import vlog, rtl, netgen
+from .. import vlog, rtl, netgen, vcheck
 from ..netgen import netlists, build, is_state
 from ..bench import mask, all_wires
 from ..runner import ok, fail, discard, HarnessError
@@ -152,6 +152,66 @@ def text_matches_circuit(text, desc, vectors):
     return None
 
 
+_FRESH = r'''
+import sys, json
+sys.path.insert(0, sys.argv[1]); sys.path.insert(0, sys.argv[2])
+import os
+sys.stdout = open(os.devnull, 'w')
+import py4hw
+from pbt import netgen
+from pbt.props import c19
+req = json.loads(sys.stdin.read())
+b = netgen.build(req['desc'])
+target = None
+def walk(o):
+    global target
+    if o.getFullPath() == req['path']:
+        target = o
+    for c in o.children.values():
+        walk(c)
+walk(b.sys)
+try:
+    g = py4hw.VerilogGenerator(target)
+    text = g.getVerilogForHierarchy() if req['cls'] == 'hier' else g.getVerilog()
+    res = [list(x) for x in c19.answer_problems(req['cls'], text)]
+except Exception as e:
+    res = [['refused', type(e).__name__]]
+sys.__stdout__.write(json.dumps(res))
+'''
+
+
+def answer_problems(cls, text):
+    """well-formedness problems of one answer: a hierarchy text must be a closed design, a module text must define a module"""
+    try:
+        mods = vlog.parse(text)
+    except vlog.VParseError:
+        return []                  # C03's verdict
+    if not mods:
+        return [('no_module_defined', 'the text defines no module')]
+    if cls != 'hier':
+        return []                  # a single module cannot be judged further without the modules it instantiates
+    return vcheck.check_design(mods, closed=True)
+
+
+def fresh_process_problems(desc, cls='hier', path=None):
+    """problems of the answer a fresh interpreter (fresh generator, nothing generated before) gives to the same request
+    on a fresh build of the description; None when the helper process fails"""
+    import json
+    import os
+    import subprocess
+    import sys
+    from .. import runner
+    root = os.path.dirname(os.path.dirname(os.path.dirname(os.path.abspath(__file__))))
+    if path is None:
+        path = build(desc).group_obj.get(0).getFullPath()
+    try:
+        r = subprocess.run([sys.executable, '-c', _FRESH, runner.PY4HW_SRC, root], input=json.dumps({'desc': desc, 'cls': cls, 'path': path}),
+                           capture_output=True, text=True, timeout=120, env=dict(os.environ, PYTHONHASHSEED='0'))
+        return json.loads(r.stdout)
+    except Exception:
+        return None
+
+
 def run_case(case):
     circuits = []
     for desc in case['circuits']:
@@ -189,6 +249,18 @@ def run_case(case):
             key = (ci,) + key
             can = ans if isinstance(ans, tuple) else canon(ans)
             first = c['first'].get(key)
+            if not isinstance(ans, tuple):
+                problems = answer_problems(key[1], ans)
+                if problems:
+                    # an ill-formed / empty answer is C03's business when the circuit gets it in a fresh process as well;
+                    # when a fresh process answers the same request well, the answer depends on what was requested before
+                    tgt_obj = c['top'] if kind in (0, 1) else tgt
+                    ref_problems = fresh_process_problems(c['desc'], key[1], tgt_obj.getFullPath())
+                    if ref_problems == []:
+                        return fail('history_dependent_text|{}|{}'.format(key[1], problems[0][0]),
+                                    'circuit {} request kind {} target {}: the answer is ill formed ({}) although a fresh process answers the same request with a well-formed text\n{}'.format(
+                                        ci, kind, tgt_obj.getFullPath(), problems[0][1], ans[:900]), cls=tags)
+                    tags.append('ill_formed_in_fresh_process_too')
             if kind == 0 and not isinstance(ans, tuple):
                 vecs = [[(step[2] * 7 + step[3] * 13 + 31 * j + 5 * t) % (1 << x['w']) for j, x in enumerate(c['desc']['inputs'])]
                         for t in range(3)]
@@ -236,12 +308,24 @@ def cases(draw, max_nodes, max_steps):
                                   'g': draw(st.integers(0, len(desc['groups']) - 1))})
             desc['order'].append(len(desc['nodes']) - 1)
             desc['outputs'] = sorted(set(desc['outputs'] + ['n%d' % (len(desc['nodes']) - 1)]))
+        # a behavioural leaf the transpiler refuses: requests that reach it raise half way
+        if draw(st.integers(0, 3)) == 0:
+            src = draw(st.sampled_from(['i%d' % k for k in range(len(desc['inputs']))] + ['n%d' % k for k in range(len(desc['nodes']))]))
+            desc['nodes'].append({'op': 'PopLoop', 'args': [src], 'w': 8, 'p': {}, 'g': draw(st.integers(0, len(desc['groups']) - 1))})
+            desc['order'].append(len(desc['nodes']) - 1)
+            desc['outputs'] = sorted(set(desc['outputs'] + ['n%d' % (len(desc['nodes']) - 1)]))
         # a sub-block clocked by a clock driver of its own (named clock whose wire is a port of the parent)
         subs = [gi for gi, g in enumerate(desc['groups']) if gi > 0 and
                 any(netgen.is_state(nd) and _inside(desc, nd['g'], gi) for nd in desc['nodes'])]
         if subs and draw(st.integers(0, 2)) == 0:
             desc['inputs'].append({'w': 1})
             desc['groups'][draw(st.sampled_from(subs))]['clk'] = {'name': 'clk_slow', 'wire': 'i%d' % (len(desc['inputs']) - 1)}
+    # a user block class that names its module itself (structureName): the same name is used in independent designs for
+    # blocks of different content (e.g. with and without a pipeline register) - at most one such block per design
+    for desc in circuits:
+        subs = [gi for gi in range(1, len(desc['groups'])) if any(_inside(desc, nd['g'], gi) for nd in desc['nodes'])]
+        if subs and draw(st.booleans()):
+            desc['groups'][draw(st.sampled_from(subs))]['sname'] = 'Stage8'
     i = st.integers(0, 40)
     steps = []
     for _ in range(draw(st.integers(2, max_steps))):
